@@ -58,6 +58,9 @@ def check_one(ctx, res, seed, st, samples, distinct):
         st["types"] += 1
         for k, (text, member) in enumerate(ws):
             st["witnesses"] += 1
+            if dup_keys(S.parse_json(text)):
+                st["dup_key_witnesses"] = st.get("dup_key_witnesses", 0) + 1
+                continue      # the declared object type has two properties with one name (a flattened type colliding with its host)
             if not member:
                 st["not_member"] += 1
                 raise vlib.HarnessError("Spec/TsSem.v produced a witness that is not a member: %s for %s" % (text, res["q"][qi]["name"]))
